@@ -411,6 +411,21 @@ struct MatGen
             for (int i = 0; i < nstate; i++) state[i] = r.below(3) == 0 ? 0x5555555555555555ULL : (r.coin() ? 3 : g.pick(r));
             for (int i = 0; i < ncoef; i++) coef[i] = r.below(3) == 0 ? 3 : (m8 ? r.below(256) : (r.coin() ? 0x5555555555555555ULL : 1 + r.below(255)));
             break;
+        case 5: // coefficients whose low 32-bit word is an 8-bit value but whose high word is set (p-1, p, 2^32, x+p ...): "looks 8-bit" in the low word only
+        {
+            static const uint64_t HI[] = {0, 0, 1, 0xFFFFFFFFULL, 0x80000000ULL, 0x7FFFFFFFULL, 0xFFFFFFFEULL};
+            bool any = false;
+            for (int i = 0; i < ncoef; i++)
+            {
+                uint64_t hi = m8 ? 0 : (r.below(4) == 0 ? HI[r.below(7)] : 0);
+                if (r.below(16) == 0 && !m8) hi = r.next() >> 32;
+                coef[i] = (hi << 32) | r.below(256);
+                if (hi) any = true;
+            }
+            if (!any && !m8) coef[r.below(ncoef)] = 0xFFFFFFFF00000000ULL;
+            for (int i = 0; i < nstate; i++) state[i] = r.coin() ? g.pick(r) : r.next();
+            break;
+        }
         default: // quotient-like states against 8-bit coefficients floor((2^64-1)/m)
             for (int i = 0; i < ncoef; i++) coef[i] = m8 ? r.below(256) : r.below(1 << 16);
             for (int i = 0; i < nstate; i++)
@@ -422,7 +437,7 @@ struct MatGen
         }
     }
 };
-static const char *MATFAM[] = {"uniform", "boundary", "band_directed", "three_times_5555", "quotient_like"};
+static const char *MATFAM[] = {"uniform", "boundary", "band_directed", "three_times_5555", "quotient_like", "low_word_8bit_high_word_set"};
 
 static void mat_fail(Report &rep, const char *prop, const char *kernel, const char *family, int st, int pos, uint64_t got, uint64_t exp, const uint64_t *state, int nstate, const uint64_t *coef, int ncoef)
 {
@@ -444,10 +459,10 @@ static void run_mat4(const vf::Args &args, Report &rep)
     uint64_t Mu[144 + 4];
     for (uint64_t t = 0; t < n; t++)
     {
-        int fam = (int)(t % 5);
+        int fam = (int)(t % 6);
         uint64_t s[12];
         uint64_t coef[144];
-        bool m8 = (t / 5) % 2 == 1;
+        bool m8 = (t / 6) % 2 == 1;
         mg.fill(rng, fam, s, 12, coef, 144, m8, &band);
         uint64_t sc[12];
         for (int i = 0; i < 12; i++) sc[i] = orc::canon(s[i]);
@@ -528,13 +543,13 @@ static void run_mat8(const vf::Args &args, Report &rep)
     uint64_t &bc_wrong = rep.counter("evidence:add_avx512_b_c_would_be_wrong_on_noncanonical_addend");
     for (uint64_t t = 0; t < n; t++)
     {
-        int fam = (int)(t % 5);
+        int fam = (int)(t % 6);
         uint64_t s[24]; // two states: s[0..11], s[12..23]
         uint64_t coef[144];
-        bool m8 = (t / 5) % 2 == 1;
+        bool m8 = (t / 6) % 2 == 1;
         mg.fill(rng, fam, s, 24, coef, 144, m8, &band);
-        if ((t / 10) % 4 == 3) memcpy(s + 12, s, 12 * 8); // identical states
-        if ((t / 10) % 4 == 2) for (int i = 0; i < 12; i++) s[12 + i] = rng.next(); // one directed, one random
+        if ((t / 12) % 4 == 3) memcpy(s + 12, s, 12 * 8); // identical states
+        if ((t / 12) % 4 == 2) for (int i = 0; i < 12; i++) s[12 + i] = rng.next(); // one directed, one random
         uint64_t sc[2][12];
         for (int st = 0; st < 2; st++) for (int i = 0; i < 12; i++) sc[st][i] = orc::canon(s[12 * st + i]);
         // interleaved layout: register j lanes 0-3 = state1[4j..4j+3], lanes 4-7 = state2[4j..4j+3]
